@@ -28,6 +28,7 @@ export const STATEMENTS = {
   vslotsFn: (N) => `export const ${N} = () => <A0 v-slots={{ x: () => [g0] }}>{() => [f0()]}</A0>;`,
   textAndPragmaLike: (N) => `export const ${N} = () => <div>  a  {g0} b </div>;`,
   boundTagParam: (N) => `import ${N}_C from "probe:kid";\nexport function ${N}(Pq = ${N}_C) { return <Pq x={g0}>t</Pq>; }`,
+  reassignShared: (N) => `let shared = "prev";\nexport const ${N} = () => { shared = <A0>{shared}</A0>; return shared; };`,
   divCallChild: (N) => `export const ${N} = () => <div>{f0()}</div>;`,
   spanIdentChild: (N) => `export const ${N} = () => <span>{g0}</span>;`,
   memberHtmlTag: (N) => `import * as ${N}_ns from "probe:ns2";\nexport const ${N} = () => <${N}_ns.span>{f0()}</${N}_ns.span>;`,
@@ -71,6 +72,9 @@ export const DISTRACTORS = {
   directiveOther: (k) => `const d${k}r = <div v-bar={g8} />;`,
   bracelessLoops: (k) => `let d${k}t = 0;\nfor (const i of [1, 2]) d${k}t += i;\nwhile (d${k}t > 100) d${k}t--;\ndo d${k}t++; while (d${k}t < 0);\nfor (const key in {}) d${k}t++;\nfor (let i = 0; i < 1; i++) d${k}t += i;`,
   stringStatement: (k) => `"marker ${k}";`,
+  reassignSharedElsewhere: (k) => `function d${k}rs() { shared = <A9>{shared}</A9>; return shared; }`,
+  lateFragmentImport: (k) => `import { Fragment } from "vue";\nconst d${k}fr = Fragment;`,
+  trivialArrows: (k) => `const d${k}n = () => null, d${k}i = () => g8, d${k}t = () => "s", d${k}u = () => undefined;`,
   memberHtmlTagUse: (k) => `import * as d${k}ns from "probe:ns2";\nconst d${k}mt = () => [<d${k}ns.div>{g8}</d${k}ns.div>, <d${k}ns.span>{g9()}</d${k}ns.span>];`,
   plainHtmlWithCall: (k) => `const d${k}ph = () => [<div>{g9()}</div>, <span>{g8}</span>];`,
   blockAndLoop: (k) => `{ let q${k} = 0; for (let i = 0; i < 2; i++) { q${k} += i; } }`,
@@ -82,6 +86,7 @@ export const INNER = [
   (k) => `if (typeof g8 !== "undefined") { Math.max(1, 2); }`, (k) => `for (let i = 0; i < 1; i++) { Math.min(i, 1); }`, (k) => `try { Math.abs(1); } catch (e) { Math.abs(2); }`,
   (k) => `const i${k}e = () => <B9>{g9()}</B9>;`, (k) => `const i${k}f = { m() { return 1; } };`, (k) => `class I${k}g { f = 1; m() { return 2; } }`, (k) => `switch (1) { case 1: { break; } default: { break; } }`,
   (k) => `for (const q${k} of [1]) Math.max(q${k}, 1);`, (k) => `while (false) Math.abs(1);`, (k) => `do Math.abs(1); while (false);`, (k) => `for (let i = 0; i < 1; i++) Math.abs(i);`, (k) => `"marker ${k}";`, (k) => `if (typeof g8 === "symbol") Math.abs(1); else Math.abs(2);`,
+  (k) => `const i${k}n = () => null, i${k}i = () => g8;`, (k) => `[1].map(() => 0);`,
   (k) => `let i${k}h = 0; i${k}h = i${k}h + 1;`, (k) => `const i${k}j = function () { return () => 3; };`, (k) => `lbl${k}: { break lbl${k}; }`,
 ];
 
@@ -103,11 +108,13 @@ export function* generate({ tier, seed }) {
   let n = 0;
   const stmts = Object.keys(STATEMENTS), ds = Object.keys(DISTRACTORS);
   const emit = (names, pre, suf, opts) => {
+    // a module can import { Fragment } by that name only once
+    { let seenF = false; const once = (d) => { if (d !== 'lateFragmentImport') return true; if (seenF) return false; seenF = true; return true; }; pre = pre.filter(once); suf = suf.filter(once); if (!pre.length) pre = ['none']; if (!suf.length) suf = ['none']; }
     // names: list of statement families (1 or 2); alone module = the statements only
     const innerOf = (i) => ({ before: rng.bool(0.5) ? rng.pick(INNER)(`b${i}`) : '', after: rng.pick(INNER)(`a${i}`) });
     const srcs = names.map((s, i) => STATEMENTS[s](`s${i}`, innerOf(i)));
     const alone = names.map((s, i) => compose([STATEMENTS[s](`s${i}`, {})]));
-    const composed = compose([...pre.map((d, i) => DISTRACTORS[d](`p${i}`)), ...srcs.flatMap((s, i) => (i === 0 ? [s] : [DISTRACTORS[suf[0] ?? 'none'](`m${i}`), s])), ...suf.map((d, i) => DISTRACTORS[d](`q${i}`))]);
+    const composed = compose([...pre.map((d, i) => DISTRACTORS[d](`p${i}`)), ...srcs.flatMap((s, i) => (i === 0 ? [s] : [DISTRACTORS[suf[0] && suf[0] !== 'lateFragmentImport' ? suf[0] : 'none'](`m${i}`), s])), ...suf.map((d, i) => DISTRACTORS[d](`q${i}`))]);
     const typed = names.includes('dcTyped');
     if (typed) opts = { ...opts, resolveType: true };
     // the import of defineComponent leads the composed module, so that prefix distractors (other imports from 'vue' among them) sit between it and the call
@@ -168,7 +175,7 @@ export async function check(group, records) {
     if ((comp.n_err > 0) !== (alone.n_err > 0)) { out.push(violated({ ...base, oracle: 'same diagnostics', sig: `C10/diagnostics-differ/${spec.names[i]}`, detail: { composed: comp.diags, alone: alone.diags } })); continue; }
     // hook: the remembered assignment target may only be consumed by the reassign family
     const takes = ((comp.hooks || {}).events || []).filter((e) => /^iife_take left=(?!-)/.test(e));
-    if (takes.length && !spec.names.some((x) => x.startsWith('reassign')) && !/reassignElsewhere/.test(group.feature)) {
+    if (takes.length && !spec.names.some((x) => x.startsWith('reassign')) && !/reassign(Shared)?Elsewhere/.test(group.feature)) {
       out.push(violated({ ...base, oracle: 'remembered assignment target consumed only by its own JSX (hook)', sig: `C10/hook/stale-assignment-target/${spec.names[i]}`, detail: takes })); continue;
     }
     const va = await valueOf(alone, spec, `s${i}`);
